@@ -1129,18 +1129,35 @@ def abstract(ops, family):
                             raise ExtractError("unrecognised position update %s := %s" % (p_, l_))
                         c1s.append((oth[0][1].val, oth[0][1].pow))
                     c1 = _uniform(c1s, "lazy position offset")
-                    # expect: (ignored transforms) force (ignored) then the velocity block
+                    # expect: (ignored transforms) force (ignored), then either the velocity block (SABA's lazy
+                    # corrector) or a full interaction step at the displaced positions followed by the restore
+                    # block (WHFast's lazy kernel)
                     saw_force = False
+                    full = None
                     while i < len(ops) and ops[i][0] != "store":
                         if ops[i][0] == "reb_simulation_update_acceleration":
                             saw_force = True
+                        elif ops[i][0] == "reb_whfast_interaction_step" and saw_force and full is None:
+                            cc_ = ops[i][1][1]
+                            if not isinstance(cc_, Coef) or cc_.pow != 1:
+                                raise ExtractError("lazy kernel kick coefficient")
+                            full = cc_.val
                         elif ops[i][0] not in IGNORED:
                             raise ExtractError("unexpected %s inside lazy kernel" % ops[i][0])
                         i += 1
                     blk2 = []
                     while i < len(ops) and ops[i][0] == "store":
                         blk2.append(tuple(ops[i][1])); i += 1
-                    vs = [(p_, l_) for p_, l_ in blk2 if re.search(r"\.v[xyz]$", p_)]
+                    if full is not None:
+                        if not saw_force or len(blk2) != len(blk1) or c1[1] != 2:
+                            raise ExtractError("lazy kernel pattern not recognised")
+                        for p_, l_ in blk2:
+                            if not re.search(r"\.[xyz]$", p_) or len(l_) != 1 or list(l_.values())[0].val != 1 or "temp" not in list(l_)[0]:
+                                raise ExtractError("lazy kernel does not restore the positions: %s := %s" % (p_, l_))
+                        out.append((K_FORCE, Fraction(0), Fraction(0)))
+                        out.append((K_LAZY, full, c1[0] * full))
+                        continue
+                    vs =[(p_, l_) for p_, l_ in blk2 if re.search(r"\.v[xyz]$", p_)]
                     xs = [(p_, l_) for p_, l_ in blk2 if re.search(r"\.[xyz]$", p_)]
                     if not saw_force or len(vs) != len(blk1) or len(xs) != len(blk1) or len(vs) + len(xs) != len(blk2):
                         raise ExtractError("lazy kernel pattern not recognised")
@@ -1398,7 +1415,7 @@ def extract_all(repo):
     # ---- EOS
     D["enums"]["eos"] = sorted(((k, v) for k, v in enums.items() if k.startswith("REB_EOS_")), key=lambda kv: kv[1])
     ebase = {"r.t": Fraction(0), "r.calculate_megno": 0, "r.ri_eos.safe_mode": 1, "r.ri_eos.is_synchronized": 1, "r.ri_eos.n": 1,
-             "r.ri_eos.phi0": 0, "r.ri_eos.phi1": 0, "r.N": 2}
+             "r.ri_eos.phi0": 0, "r.ri_eos.phi1": 0, "r.N": 2, "r.gravity": enums["REB_GRAVITY_BASIC"]}
     D["eos"] = []
     for name, val in D["enums"]["eos"]:
         m = dict(ebase); m["r.ri_eos.phi0"] = val
